@@ -6,7 +6,7 @@ while [ $# -ge 2 ]; do
   S="$1"; ID="$2"; shift 2
   git -C $WT checkout -q -- . ; git -C $WT clean -qfd
   if ! git -C $WT apply /verif/seeded/$S/patch.diff 2>/dev/null; then echo "$S $ID: patch does not apply" >> /tmp/eval_seeded.log; continue; fi
-  cd /verif && ZORG_SRC=$WT/src ./check $ID quick > /tmp/ev.$S.$ID.out 2> /tmp/ev.$S.$ID.err; RC=$?
+  cd /verif && VERIF_EVIDENCE_DIR=/tmp/ev_evidence ZORG_SRC=$WT/src ./check $ID quick > /tmp/ev.$S.$ID.out 2> /tmp/ev.$S.$ID.err; RC=$?
   echo "$S $ID: exit=$RC violations=$(grep -c '^VIOLATION' /tmp/ev.$S.$ID.out) $(grep '^\[C' /tmp/ev.$S.$ID.err | tail -1) $(grep -c HARNESS-ERROR /tmp/ev.$S.$ID.err) harness-errors" >> /tmp/eval_seeded.log
   git -C $WT checkout -q -- .
 done
